@@ -291,7 +291,8 @@ def _array(*args: Any) -> Arr:
 
 def run_source(text: str, entry: str = "main", *, strict_signed: bool = True,
                exact_floats: bool = True, extra_env: dict[str, Any] | None = None,
-               max_steps: int = 200_000) -> tuple[list[tuple[str, Any]], str | None]:
+               max_steps: int = 200_000,
+               index_error_is_panic: bool = False) -> tuple[list[tuple[str, Any]], str | None]:
     """Execute `text` under CPython. Returns (stream, panic message|None).
     Raises OutOfDomain when the run leaves the agreed domain, StepLimit on runaway loops."""
     tree = ast.parse(text)
@@ -320,7 +321,13 @@ def run_source(text: str, entry: str = "main", *, strict_signed: bool = True,
         return orc.stream, p.msg
     except RecursionError as e:
         raise OutOfDomain("recursion") from e
-    except (IndexError, ZeroDivisionError, OverflowError) as e:
+    except IndexError as e:
+        if index_error_is_panic:
+            # a too-large index on an array: Guppy panics at that point (callers generate only
+            # indices >= len, never negative ones, for which Python would not raise)
+            return orc.stream, "index out of bounds"
+        raise OutOfDomain("python raised IndexError") from e
+    except (ZeroDivisionError, OverflowError) as e:
         # Python raised: outside the property's quantifier ("terminates without raising")
         raise OutOfDomain(f"python raised {type(e).__name__}") from e
     return orc.stream, None
